@@ -1,7 +1,7 @@
 (* Dispatcher used by the correspondence check: the model's answer for one case line.
    Function codes are assigned in driver/fncodes.py (single source of the numbering). *)
 From Coq Require Import NArith List Bool.
-From RQ Require Import Base.Outcome Base.Ints Base.ListX Gen.Consts Spec.GF256 Spec.Wire Spec.Oti Spec.Rand Spec.Tuple Spec.Prime Spec.Derive Model.Params Model.Octet Model.Wire Model.Oti Model.Cache Model.SysConst Model.Tuple Model.RunCodec Model.RunKern Model.RunMat.
+From RQ Require Import Base.Outcome Base.Ints Base.ListX Gen.Consts Spec.GF256 Spec.Wire Spec.Oti Spec.Rand Spec.Tuple Spec.Prime Spec.Derive Model.Params Model.Octet Model.Wire Model.Oti Model.Cache Model.SysConst Model.Tuple Model.RunCodec Model.RunKern Model.RunMat Model.PiSolver.
 Import ListNotations.
 Open Scope N_scope.
 
@@ -91,6 +91,9 @@ Definition run_codec (f : N) (a : list N) : list N :=
   | 250 => run_spec_block_packets a
   | 252 => run_cert_ok a
   | 253 => run_check_intermediate a
+  | 254 => run_check_intermediate_rfc a
+  | 208 => run_cm_rows Release a
+  | 218 => run_cm_rows Checked a
   | 251 => run_spec_layout_packets a
   | _ => [0; 99]
   end.
@@ -138,6 +141,27 @@ Definition run_tuple (f : N) (a : list N) : list N :=
   | _ => [0; 99]
   end.
 
+(* the executable model of pi_solver.rs: operation lists, to be compared token by token with the real
+   solver's on the dense back-end.  600/601: [K] encoding system; 602/603: [K, no_hdpc, isis...] *)
+Definition enc_sol (x : outcome (option (list N))) : list N :=
+  match x with
+  | Ok (Some v) => 1 :: 1 :: v
+  | Ok None => [1; 0]
+  | Panic c => [0; pcode c]
+  end.
+Definition run_pisolver (f : N) (a : list N) : list N :=
+  match f with
+  | 600 => enc_sol (pi_plan_run Release (arg a 0))
+  | 601 => enc_sol (pi_plan_run Checked (arg a 0))
+  | 602 => enc_sol (omap (option_map flat_ops)
+             (if arg a 1 =? 0 then pi_system_run Release (arg a 0) (skipn 2 a)
+              else pi_system_run_no_hdpc Release (arg a 0) (skipn 2 a)))
+  | 603 => enc_sol (omap (option_map flat_ops)
+             (if arg a 1 =? 0 then pi_system_run Checked (arg a 0) (skipn 2 a)
+              else pi_system_run_no_hdpc Checked (arg a 0) (skipn 2 a)))
+  | _ => [0; 99]
+  end.
+
 Definition run (f : N) (a : list N) : list N :=
   if f <? 100 then run_octet f a
   else if f <? 200 then run_wire f a
@@ -145,4 +169,5 @@ Definition run (f : N) (a : list N) : list N :=
   else if f <? 400 then run_tuple f a
   else if f <? 500 then run_kern f a
   else if f <? 600 then run_mat f a
+  else if f <? 700 then run_pisolver f a
   else [0; 99].
